@@ -213,6 +213,17 @@ func c11A5(c *Ctx) {
 	sinks := t.Sinks()
 	r.Note("C11-A5: %d variables carry a parsed client integer in %d functions; %d sinks", len(t.Tainted), len(t.Funcs), len(sinks))
 	r.Min("C11-A5", len(t.Tainted), 20, "variables holding parsed client integers on the apply path")
+	// size guards must not add to the client integer before comparing: the sum wraps around for a huge value
+	for _, s := range t.OverflowGuards() {
+		u := s.U
+		v := u.C.TermOfObj(s.Var)
+		construct := fmt.Sprintf("%s: bound test on %s does not overflow for a huge client integer %s", u.Name, clipS(u.C.Term(s.Expr), 60), clipS(v, 40))
+		if t.UpperBounded(u, s.Var, s.Site) {
+			r.Ok("C11-A5", construct, u.Pos(s.Site.Pos), "the client integer is bounded from above on this path before it is added to")
+		} else {
+			r.Bad("C11-A5", construct, u.Pos(s.Site.Pos), fmt.Sprintf("the comparison adds to the client value first (%s): for a value near the top of the integer range the sum wraps to a negative number and passes the test; compare the value alone (v > limit - other) or bound it first", t.Tainted[s.Var]))
+		}
+	}
 	for _, s := range sinks {
 		u := s.U
 		v := u.C.TermOfObj(s.Var)
